@@ -710,3 +710,267 @@ Proof.
   destruct (fold_left (notify_one c now (mkA atime peer) false) interested (st, [])) as [st1 tf]. cbn [snd] in *.
   exists tf. split; [|exact H]. destruct tf; [contradiction | left; reflexivity].
 Qed.
+
+(* ====================== what a pass leaves behind ====================== *)
+
+Definition recent (c : cfg) (now : Z) (id : N) (e : entry) (st : state) : Prop :=
+  lru_find id (ann st) = Some e /\
+  exists p ft, f_find id (fetching st) = Some (p, ft) /\ (now - ft <= c_arrive c - c_slack c)%Z.
+
+Lemma f_find_set_same id v f : f_find id (f_set id v f) = Some v.
+Proof.
+  unfold f_set. destruct (f_find id f) eqn:F.
+  - induction f as [|[i w] f IH]; cbn in *; [discriminate|].
+    destruct (i =? id)%N eqn:E; cbn; [now rewrite N.eqb_refl|]. rewrite E. auto.
+  - induction f as [|[i w] f IH]; cbn in *; [now rewrite N.eqb_refl|].
+    destruct (i =? id)%N eqn:E; [discriminate|]. auto.
+Qed.
+
+Lemma lru_get_same id l e : lru_find id l = Some e ->
+  lru_get id l = (Some (e_val e), e :: lru_del id l) /\ lru_find id (e :: lru_del id l) = Some e.
+Proof.
+  intros F. unfold lru_get. rewrite F. split; [reflexivity|].
+  destruct (lru_find_some _ _ _ F) as [_ Hk]. cbn. now rewrite Hk, N.eqb_refl.
+Qed.
+
+(* processing id itself: afterwards it is "recent" (requested now, or requested not long ago) *)
+Lemma pass_one_establish c now ch st rq id e oldest more :
+  (c_slack c <= c_arrive c)%Z ->
+  lru_find id (ann st) = Some e -> e_val e = oldest :: more -> (now - a_time oldest <= c_forget c)%Z ->
+  recent c now id e (fst (pass_one c now ch (st, rq) id)).
+Proof.
+  intros Hs F Hv Hage. unfold pass_one.
+  destruct (lru_get_same id _ e F) as [G F']. rewrite G, Hv.
+  replace (c_forget c <? now - a_time oldest)%Z with false by lia.
+  cbn [fetching].
+  destruct (f_find id (fetching st)) as [[pp ft]|] eqn:Ff.
+  - destruct (c_arrive c - c_slack c <? now - ft)%Z eqn:Est; cbn [fst ann fetching].
+    + split; [exact F'|]. eexists _, now. split; [apply f_find_set_same | lia].
+    + split; [exact F'|]. exists pp, ft. split; [exact Ff | lia].
+  - cbn [fst ann fetching]. split; [exact F'|]. eexists _, now. split; [apply f_find_set_same | lia].
+Qed.
+
+Lemma pass_one_recent c now ch st rq id e oldest more id' :
+  e_val e = oldest :: more -> (now - a_time oldest <= c_forget c)%Z ->
+  recent c now id e st -> recent c now id e (fst (pass_one c now ch (st, rq) id')).
+Proof.
+  intros Hv Hage [F (p & ft & Ff & Hr)].
+  destruct (N.eq_dec id' id) as [->|Hne].
+  - unfold pass_one. destruct (lru_get_same id _ e F) as [G F']. rewrite G, Hv.
+    replace (c_forget c <? now - a_time oldest)%Z with false by lia.
+    cbn [fetching]. rewrite Ff.
+    replace (c_arrive c - c_slack c <? now - ft)%Z with false by lia.
+    cbn [fst]. split; [exact F' | exists p, ft; auto].
+  - assert (Hne' : id <> id') by congruence.
+    destruct (pass_one_other c now ch st rq id id' Hne') as [H1 H2].
+    split; [now rewrite H1 | exists p, ft; rewrite H2; auto].
+Qed.
+
+Lemma pass_fold_recent c now ch id e oldest more l : forall st rq,
+  e_val e = oldest :: more -> (now - a_time oldest <= c_forget c)%Z ->
+  recent c now id e st -> recent c now id e (fst (fold_left (pass_one c now ch) l (st, rq))).
+Proof.
+  induction l as [|i l IH]; intros st rq Hv Hage H; cbn [fold_left]; [exact H|].
+  pose proof (pass_one_recent c now ch st rq id e oldest more i Hv Hage H) as H1.
+  destruct (pass_one c now ch (st, rq) i) as [st1 rq1]. now apply IH.
+Qed.
+
+Lemma pass_fold_establish c now ch id e oldest more l : forall st rq,
+  (c_slack c <= c_arrive c)%Z -> In id l ->
+  lru_find id (ann st) = Some e -> e_val e = oldest :: more -> (now - a_time oldest <= c_forget c)%Z ->
+  recent c now id e (fst (fold_left (pass_one c now ch) l (st, rq))).
+Proof.
+  induction l as [|i l IH]; intros st rq Hs Hin F Hv Hage; [contradiction|]. cbn [fold_left].
+  destruct (N.eq_dec i id) as [->|Hne].
+  - pose proof (pass_one_establish c now ch st rq id e oldest more Hs F Hv Hage) as H1.
+    destruct (pass_one c now ch (st, rq) id) as [st1 rq1]. cbn [fst] in H1.
+    now apply (pass_fold_recent c now ch id e oldest more).
+  - destruct Hin as [E|Hin]; [contradiction|].
+    assert (Hne' : id <> i) by congruence.
+    destruct (pass_one_other c now ch st rq id i Hne') as [H1 _].
+    destruct (pass_one c now ch (st, rq) i) as [st1 rq1]. cbn [fst] in H1.
+    apply IH; try assumption. now rewrite H1.
+Qed.
+
+Lemma forget_fold_recent c now id e interested l : forall st,
+  In id interested -> recent c now id e st ->
+  recent c now id e (fold_left (fun s x => if memN x interested then s else forget x s) l st).
+Proof.
+  induction l as [|x l IH]; intros st Hin H; cbn [fold_left]; [exact H|].
+  destruct (memN x interested) eqn:M; [now apply IH|].
+  apply IH; [assumption|].
+  assert (Hne : id <> x) by (intros ->; apply memN_in in Hin; congruence).
+  destruct (forget_other id x st Hne) as [H1 H2]. destruct H as [F (p & ft & Ff & Hr)].
+  split; [now rewrite H1 | exists p, ft; rewrite H2; auto].
+Qed.
+
+Lemma reschedule_fetching c st now scan : fetching (reschedule c st now scan) = fetching st.
+Proof. unfold reschedule. destruct (ann st); reflexivity. Qed.
+
+(* every pass the loop takes leaves every held, interesting, young item with a request that is at
+   most ArriveTimeout - GatherSlack old (made in this very pass, or earlier) *)
+Lemma fetcher_pass_leaves_recent c st now interested ch scan id e oldest more :
+  (c_slack c <= c_arrive c)%Z -> timer_chan st = true -> In id interested ->
+  lru_find id (ann st) = Some e -> e_val e = oldest :: more -> (now - a_time oldest <= c_forget c)%Z ->
+  let st' := fst (step true c st now (ETimer interested ch scan)) in
+  lru_find id (ann st') = Some e /\
+  exists p ft, f_find id (fetching st') = Some (p, ft) /\ (now - ft <= c_arrive c - c_slack c)%Z.
+Proof.
+  unfold timer_chan. intros Hs Hc Hin F Hv Hage. cbn [step]. rewrite Hc. unfold timer_pass.
+  set (st0 := mkSt (ann st) (fetching st) (mkT (t_armed (tm st)) false)).
+  pose proof (pass_fold_establish c now ch id e oldest more interested st0 [] Hs Hin F Hv Hage) as H.
+  destruct (fold_left (pass_one c now ch) interested (st0, [])) as [st1 rq]. cbn [fst] in *.
+  pose proof (forget_fold_recent c now id e interested (lru_keys (ann st0)) st1 Hin H) as H2.
+  destruct H2 as [F2 (p & ft & Ff & Hr)].
+  rewrite reschedule_ann, reschedule_fetching. split; [exact F2 | exists p, ft; auto].
+Qed.
+
+(* ====================== every fetching entry records a request that was really made ====================== *)
+
+Lemma f_find_in id v f : f_find id f = Some v -> In (id, v) f.
+Proof.
+  induction f as [|[i w] f IH]; cbn; [discriminate|].
+  destruct (i =? id)%N eqn:E; [apply N.eqb_eq in E; subst; intros H; inversion H; auto | auto].
+Qed.
+
+Lemma f_del_incl id f x : In x (f_del id f) -> In x f.
+Proof. unfold f_del. intros H. apply filter_In in H. tauto. Qed.
+
+Lemma f_del_all_incl ev : forall f x, In x (f_del_all ev f) -> In x f.
+Proof.
+  unfold f_del_all. induction ev as [|i ev IH]; intros f x H; cbn [fold_left] in H; [exact H|].
+  apply IH in H. eapply f_del_incl; eauto.
+Qed.
+
+Lemma f_set_in id v f x : In x (f_set id v f) -> x = (id, v) \/ In x f.
+Proof.
+  unfold f_set. destruct (f_find id f).
+  - intros H. apply in_map_iff in H. destruct H as (y & Hy & Hin).
+    destruct (fst y =? id)%N; [left; now symmetry | right; now subst].
+  - intros H. apply in_app_iff in H. destruct H as [H | [<- | []]]; auto.
+Qed.
+
+Lemma forget_fetching_incl id st x : In x (fetching (forget id st)) -> In x (fetching st).
+Proof. unfold forget. destruct (lru_find id (ann st)); cbn [fetching]; [apply f_del_incl | auto]. Qed.
+
+Lemma notify_one_fetching c now d susp st tf i :
+  let '(st', tf') := notify_one c now d susp (st, tf) i in
+  (forall x, In x (fetching st') -> In x (fetching st) \/ (x = (i, (a_peer d, now)) /\ In i tf')) /\
+  (forall y, In y tf -> In y tf').
+Proof.
+  unfold notify_one. destruct (lru_get i (ann st)) as [got l1]. destruct (lru_add _ _ _ _ _) as [l2 ev].
+  destruct susp; cbn [fetching].
+  - split; [intros x H; left; eapply f_del_all_incl; eauto | auto].
+  - destruct (f_find i (f_del_all ev (fetching st))); cbn [fetching].
+    + split; [intros x H; left; eapply f_del_all_incl; eauto | auto].
+    + split.
+      * intros x H. apply in_app_iff in H. destruct H as [H | [<- | []]].
+        -- left; eapply f_del_all_incl; eauto.
+        -- right. split; [reflexivity | apply in_app_iff; cbn; auto].
+      * intros y Hy. apply in_app_iff; auto.
+Qed.
+
+Lemma notify_fold_fetching c now d susp l : forall st tf,
+  let '(st', tf') := fold_left (notify_one c now d susp) l (st, tf) in
+  (forall x, In x (fetching st') -> In x (fetching st) \/ (exists i, x = (i, (a_peer d, now)) /\ In i tf')) /\
+  (forall y, In y tf -> In y tf').
+Proof.
+  induction l as [|i l IH]; intros st tf; cbn [fold_left]; [auto|].
+  pose proof (notify_one_fetching c now d susp st tf i) as H1.
+  destruct (notify_one c now d susp (st, tf) i) as [st1 tf1]. destruct H1 as [H1 H2].
+  specialize (IH st1 tf1). destruct (fold_left (notify_one c now d susp) l (st1, tf1)) as [st' tf'].
+  destruct IH as [H3 H4]. split; [|auto].
+  intros x Hx. destruct (H3 x Hx) as [H|H]; [|auto].
+  destruct (H1 x H) as [H'|[-> H']]; [auto | right; eauto].
+Qed.
+
+Lemma pass_one_fetching c now ch st rq i :
+  let '(st', rq') := pass_one c now ch (st, rq) i in
+  forall x, In x (fetching st') -> In x (fetching st) \/ (exists p, x = (i, (p, now)) /\ rq_has rq' p i).
+Proof.
+  unfold pass_one. destruct (lru_get i (ann st)) as [got l1].
+  destruct got as [[|oldest more]|]; cbn [fetching]; auto.
+  destruct (c_forget c <? now - a_time oldest)%Z.
+  - intros x H. left. apply forget_fetching_incl in H. exact H.
+  - match goal with |- context [if ?b then _ else _] => destruct b end; cbn [fetching]; [|auto].
+    intros x H. apply f_set_in in H. destruct H as [-> | H]; [right | auto].
+    eexists. split; [reflexivity|]. apply req_add_has. auto.
+Qed.
+
+Lemma pass_fold_fetching c now ch l : forall st rq,
+  let '(st', rq') := fold_left (pass_one c now ch) l (st, rq) in
+  forall x, In x (fetching st') -> In x (fetching st) \/ (exists i p, x = (i, (p, now)) /\ rq_has rq' p i).
+Proof.
+  induction l as [|i l IH]; intros st rq; cbn [fold_left]; [auto|].
+  pose proof (pass_one_fetching c now ch st rq i) as H1.
+  destruct (pass_one c now ch (st, rq) i) as [st1 rq1] eqn:E1.
+  specialize (IH st1 rq1).
+  pose proof (fun p j => pass_fold_mono c now ch l st1 rq1 p j) as Hm.
+  destruct (fold_left (pass_one c now ch) l (st1, rq1)) as [st' rq']. cbn [snd] in Hm.
+  intros x Hx. destruct (IH x Hx) as [H|H]; [|auto].
+  destruct (H1 x H) as [H'|(p & -> & H')]; [auto | right; eauto].
+Qed.
+
+Definition fetch_hist (st : state) (log : list (Z * request)) : Prop :=
+  forall id p ft, In (id, (p, ft)) (fetching st) -> exists ids, In (ft, (p, ids)) log /\ In id ids.
+
+Lemma fetch_hist_step c st now ev log :
+  fetch_hist st log ->
+  fetch_hist (fst (step true c st now ev)) (log ++ map (fun x => (now, x)) (snd (step true c st now ev))).
+Proof.
+  intros H.
+  assert (Hold : forall st', (forall x, In x (fetching st') -> In x (fetching st)) ->
+                 forall rq, fetch_hist st' (log ++ rq)).
+  { intros st' Hs rq id p ft Hin. destruct (H id p ft (Hs _ Hin)) as (ids & H1 & H2).
+    exists ids. split; [apply in_app_iff; auto | assumption]. }
+  destruct ev as [peer ids atime interested susp scan | ids | | interested ch scan]; cbn [step].
+  - unfold process_notification. destruct interested as [|i0 rest]; [apply Hold; auto|].
+    remember (i0 :: rest) as interested eqn:EI. clear EI.
+    pose proof (notify_fold_fetching c now (mkA atime peer) susp interested st []) as Hf.
+    destruct (fold_left (notify_one c now (mkA atime peer) susp) interested (st, [])) as [st1 tf].
+    destruct Hf as [Hf _]. cbn [fst snd].
+    intros id p ft Hin.
+    assert (Hin1 : In (id, (p, ft)) (fetching st1)).
+    { destruct (_ && _); [now rewrite reschedule_fetching in Hin | exact Hin]. }
+    destruct (Hf _ Hin1) as [Ho | (i & E & Hi)].
+    + destruct (H id p ft Ho) as (l & H1 & H2). exists l. split; [apply in_app_iff; auto | assumption].
+    + inversion E; subst. cbn [a_peer]. exists tf. split; [|assumption].
+      apply in_app_iff. right. destruct tf; [contradiction | cbn; auto].
+  - cbn [fst snd]. apply Hold. clear. revert st. induction ids as [|i ids IH]; intros st x Hx; cbn [fold_left] in Hx; [exact Hx|].
+    apply IH in Hx. now apply forget_fetching_incl in Hx.
+  - destruct (t_armed (tm st)) as [due|]; [destruct (due <=? now)%Z|]; cbn [fst snd]; apply Hold; auto.
+  - destruct (t_chan (tm st)); [|apply Hold; auto].
+    unfold timer_pass.
+    set (st0 := mkSt (ann st) (fetching st) (mkT (t_armed (tm st)) false)).
+    pose proof (pass_fold_fetching c now ch interested st0 []) as Hf.
+    destruct (fold_left (pass_one c now ch) interested (st0, [])) as [st1 rq]. cbn [fst snd].
+    intros id p ft Hin. rewrite reschedule_fetching in Hin.
+    assert (Hin1 : In (id, (p, ft)) (fetching st1)).
+    { clear - Hin. revert Hin. generalize (lru_keys (ann st0)). intros l. revert st1.
+      induction l as [|x l IH]; intros st1 Hin; cbn [fold_left] in Hin; [exact Hin|].
+      destruct (memN x interested); [now apply IH|]. apply IH in Hin. now apply forget_fetching_incl in Hin. }
+    destruct (Hf _ Hin1) as [Ho | (i & q & E & (l & Hl1 & Hl2))].
+    + destruct (H id p ft Ho) as (l & H1 & H2). exists l. split; [apply in_app_iff; auto | assumption].
+    + inversion E; subst. exists l. split; [|assumption]. apply in_app_iff. right.
+      apply in_map_iff. exists (q, l). auto.
+Qed.
+
+Lemma fetch_hist_run c tr : forall st pre,
+  fetch_hist st pre -> fetch_hist (fst (run true c st tr)) (pre ++ snd (run true c st tr)).
+Proof.
+  induction tr as [|[now ev] tr IH]; intros st pre H; cbn [run].
+  - cbn. now rewrite app_nil_r.
+  - pose proof (fetch_hist_step c st now ev pre H) as H1.
+    destruct (step true c st now ev) as [st1 rq]. cbn [fst snd] in H1.
+    specialize (IH st1 _ H1). destruct (run true c st1 tr) as [st2 log]. cbn [fst snd] in *.
+    now rewrite <- app_assoc in IH.
+Qed.
+
+(* on every trace: a fetching entry (id -> peer, time) witnesses a request (peer, ..id..) made at that time *)
+Lemma fetcher_fetching_was_requested c t0 tr id p ft :
+  f_find id (fetching (fst (run true c (init t0) tr))) = Some (p, ft) ->
+  exists ids, In (ft, (p, ids)) (snd (run true c (init t0) tr)) /\ In id ids.
+Proof.
+  intros H. apply f_find_in in H.
+  exact (fetch_hist_run c tr (init t0) [] (fun _ _ _ F => match F with end) id p ft H).
+Qed.
